@@ -151,6 +151,22 @@ func (s *nnrfService) RegisterNFInstance(ctx context.Context) (
 		}
 		nf = res.NrfNfManagementNfProfile
 
+		// the NRF states its OAuth2 setting in the profile it returns, whether it created the
+		// profile (201) or replaced one it still held under this instance id (200)
+		oauth2, declared := false, false
+		if nf.CustomInfo != nil {
+			oauth2, declared = nf.CustomInfo["oauth2"].(bool)
+		}
+		if declared {
+			logger.MainLog.Infoln("OAuth2 setting receive from NRF:", oauth2)
+		}
+		if declared || res.Location != "" {
+			chf_context.GetSelf().OAuth2Required = oauth2
+			if oauth2 && chf_context.GetSelf().NrfCertPem == "" {
+				logger.CfgLog.Error("OAuth2 enable but no nrfCertPem provided in config.")
+			}
+		}
+
 		// http.StatusOK
 		if res.Location == "" {
 			// NFUpdate
@@ -160,19 +176,6 @@ func (s *nnrfService) RegisterNFInstance(ctx context.Context) (
 			resourceUri := res.Location
 			resouceNrfUri = resourceUri[:strings.Index(resourceUri, "/nnrf-nfm/")]
 			retrieveNfInstanceID = resourceUri[strings.LastIndex(resourceUri, "/")+1:]
-
-			oauth2 := false
-			if nf.CustomInfo != nil {
-				v, ok := nf.CustomInfo["oauth2"].(bool)
-				if ok {
-					oauth2 = v
-					logger.MainLog.Infoln("OAuth2 setting receive from NRF:", oauth2)
-				}
-			}
-			chf_context.GetSelf().OAuth2Required = oauth2
-			if oauth2 && chf_context.GetSelf().NrfCertPem == "" {
-				logger.CfgLog.Error("OAuth2 enable but no nrfCertPem provided in config.")
-			}
 
 			break
 		}
